@@ -176,6 +176,8 @@ def main():
         # kernels of length <= 3 - the bottleneck must not exceed the uniform one (first alternative, uniform split)
         _, alt = forms_c01(ports)
         alt = alt + [{0: [[1, as_ports(subsets(ports)[0])]], 1: [[2, as_ports(subsets(ports)[1])]], 2: [[1, as_ports(subsets(ports)[-1])]]}]
+        # alternatives whose port sets overlap but differ (the adopted alternative's ports are the ones later passes may use)
+        alt = alt + [{0: [[c, as_ports(ports[:2])]], 1: [[c, as_ports(ports[1:])]]} for c in (1, 2)]
         for a in alt:
             for rest in [[]] + [[x] for x in f2] + [[x, y] for x in f1 for y in f1]:
                 for k in ([a] + rest, rest + [a]) if rest else ([a],):
@@ -216,6 +218,13 @@ def main():
             # forms with alternatives are outside the statement's 0.15-cy family; only "never worse than uniform" is claimed
             if max(tot) > max(uni) + EPS:
                 R.fail("C02/optimal/worse-than-uniform", "c02:worse", f"bottleneck {max(tot)} after {npass} pass(es) > uniform {max(uni)} for kernel {forms}", desc)
+            # ... and "never undercuts the exact optimum": for a kernel with alternatives that is the best optimum over the choices
+            choices = [list(u.values()) if isinstance(u, dict) else [u] for u in forms]
+            opt = min(optimum(ports, list(c)) for c in itertools.product(*choices))
+            if max(tot) < opt - 0.01 * sum(max(len(x) for x in ch) for ch in choices) - 0.005 - EPS:
+                known_c01 = npass == 2 and any(overlapping_different(x) for ch in choices for x in ch if len(x) > 1)
+                R.fail("C02/optimal/undercuts-optimum", "optimal:second-pass:overlapping-uops" if known_c01 else "c02:undercut",
+                       f"bottleneck {max(tot)} < exact optimum {opt:.4f} over the alternative assignments for kernel {forms} (passes={npass})", desc)
         elif MODE == "c02" and tot is not None and any(len(u) > 1 for u in forms):
             opt = optimum(ports, sel)
             if max(tot) > max(uni) + EPS:
